@@ -10,6 +10,7 @@ TYPE_RULES = [
     (r"\bGroupVec::new\(\)", "Vec::new()"),
 ]
 
+NOISO = "#[verifier::loop_isolation(false)]"
 PUBF = [(r"(?m)^(\s*)([a-z_]+\s*:)", r"\1pub \2")]   # struct fields made visible to spec functions
 
 UNIT = dict(
@@ -39,5 +40,10 @@ UNIT = dict(
                         (r"\bmut i\s*:\s*I\b", "mut i: It<T>"), (r"\bj\s*:\s*J\b", "j: It<T>")]),
         dict(key="StagesBuilder::find_conflict", file=STAGE, kind="fn", name="find_conflict", owner=SB, emit_owner="impl StagesBuilder",
              drop_generics=True, sig_rules=[(r"\bnew_reads\s*:\s*R\b", "new_reads: It<ResourceId>"), (r"\bnew_writes\s*:\s*W\b", "new_writes: It<ResourceId>")]),
+        dict(key="StagesBuilder::remove_ids", file=STAGE, kind="fn", name="remove_ids", owner=SB, emit_owner="impl StagesBuilder", sig_prefix=NOISO),
+        dict(key="StagesBuilder::improves_balance", file=STAGE, kind="fn", name="improves_balance", owner=SB, emit_owner="impl StagesBuilder", sig_prefix=NOISO),
+        dict(key="StagesBuilder::insertion_target", file=STAGE, kind="fn", name="insertion_target", owner=SB, emit_owner="impl StagesBuilder",
+             drop_generics=True, sig_prefix=NOISO + " #[verifier::allow_complex_invariants]",
+             sig_rules=[(r"\bnew_reads\s*:\s*R\b", "new_reads: &Vec<ResourceId>"), (r"\bnew_writes\s*:\s*W\b", "new_writes: &Vec<ResourceId>")]),
     ],
 )
